@@ -72,7 +72,7 @@ Proof.
   induction resp as [|[i rep] resp IH]; intros c remove rm le r c' H; cbn [fnp_loop] in H.
   - injection H as _ <-. destruct (remove_witnesses (cl_witnesses c) rm); [apply same_set | apply same_refl].
   - destruct rep as [b|e].
-    + destruct (remove_witnesses _ _); injection H as _ <-; apply same_set.
+    + destruct (remove_witnesses _ _); injection H as _ <-; [apply same_set | apply same_refl].
     + destruct (is_benign e); apply IH in H; exact H.
 Qed.
 
